@@ -112,6 +112,9 @@ func runProgCase(c progCase) string {
 	for _, k := range c.May {
 		may[k] = true
 	}
+	if proggen.Feasible(got, must, may, c.OneOf) {
+		return ""
+	}
 	var probs []string
 	for _, grp := range c.OneOf {
 		n := 0
@@ -140,7 +143,7 @@ func runProgCase(c progCase) string {
 	if len(probs) > 0 {
 		return strings.Join(probs, "; ")
 	}
-	return ""
+	return "unexpected or missing report: overlapping once-per-file groups cannot be attributed"
 }
 
 func init() {
